@@ -39,13 +39,15 @@ RULE = (
     "{zstd+gzip, gzip only, none} on a unary call and on a producer continuation (pre-compressed path); e2e: Hypothesis header strings (≤4 entries; case variants, "
     "OWS/tabs, empty entries, ;q= weights incl. 0 and malformed, other parameters, unknown tokens) × server "
     "configuration (level None/1/3/19, zstd disabled, response cap) × response kind (unary small/big/error, "
-    "stream init, producer continuation = pre-compressed path small/big/last/error/multi-batch, exchange turn), "
+    "stream init, producer continuation = pre-compressed path small/big/last/error/multi-batch, exchange turn, and four "
+    "pre-dispatch refusals: corrupt zstd / gzip request body, non-IPC body, unknown method), "
     "optionally preceded by another request on the same app. Non-trivial = both headers carry a usable entry and "
     "their first usable entries differ. Distinct by SHA-1 of the canonical JSON case."
 )
 ASSUMPTIONS = [
     "zstandard / zlib decoders and pyarrow's IPC reader are trusted to judge the response body",
     "request bodies are produced by the library's own client (harvested once per configuration, replayed with generated headers)",
+    "a pre-dispatch refusal (4xx written by the error serializer) may be sent uncoded whatever was offered; it may not announce a coding its body does not carry",
     "server encode set is taken from the documented make_wsgi_app semantics: compression_level=None → none, VGI_HTTP_DISABLE_ZSTD=1 → gzip only, else zstd+gzip",
 ]
 SHARDS = {"quick": 1, "thorough": 16}
@@ -139,6 +141,11 @@ KINDS = [
 ]
 
 
+# requests the framework refuses before any method runs: the error body is written by the error serializer, not by
+# the streaming path, so nothing compresses it — whatever the response *announces* must still be true of the body
+REJECT_KINDS = ["rej_corrupt_zstd", "rej_corrupt_gzip", "rej_bad_ipc", "rej_unknown_method"]
+
+
 class _Fixture:
     """One WSGI app per server configuration + harvested request bodies per response kind."""
 
@@ -229,6 +236,15 @@ class _Fixture:
             got = take(k)
             self.requests["exch_init"] = got[0]
             self.requests["exch"] = got[1]
+        upath, ubody = self.requests["unary_small"]
+        self.extra_headers: dict[str, dict[str, str]] = {
+            "rej_corrupt_zstd": {"Content-Encoding": "zstd"},
+            "rej_corrupt_gzip": {"Content-Encoding": "gzip"},
+        }
+        self.requests["rej_corrupt_zstd"] = (upath, b"\x28\xb5\x2f\xfd\x04\x58" + b"\xff" * 40)
+        self.requests["rej_corrupt_gzip"] = (upath, b"\x1f\x8b\x08\x00\x00\x00\x00\x00\x00\x03" + b"\xff" * 40)
+        self.requests["rej_bad_ipc"] = (upath, b"this is not an arrow ipc stream")
+        self.requests["rej_unknown_method"] = ("/no_such_method", ubody)
 
     def send(self, kind: str, ae: str | None, xae: str | None) -> Any:
         path, body = self.requests[kind]
@@ -237,6 +253,7 @@ class _Fixture:
             headers["Accept-Encoding"] = ae
         if xae is not None:
             headers["X-VGI-Accept-Encoding"] = xae
+        headers.update(self.extra_headers.get(kind, {}))
         return self.tc.simulate_post(path, body=body, headers=headers)
 
 
@@ -278,6 +295,8 @@ def _announced(r: Any) -> tuple[str | None, str | None, str | None]:
 
 
 def _view(kind: str, body: bytes) -> Any:
+    if kind.startswith("rej_"):
+        return R.canonical_ipc(body)
     return body if kind.startswith("unary") else R.canonical_ipc(body)
 
 
@@ -338,7 +357,7 @@ def _run_case(case: dict[str, Any]) -> Outcome:
     r = fx.send(kind, ae, xae)
     coding, hdr, problem = _announced(r)
     cfg_name = "none" if cfg["level"] is None else ("gzip_only" if cfg["no_zstd"] else "zstd_gzip")
-    kclass = "precompressed" if kind.startswith("cont") else ("unary" if kind.startswith("unary") else "stream")
+    kclass = "precompressed" if kind.startswith("cont") else ("unary" if kind.startswith("unary") else "rejected" if kind.startswith("rej_") else "stream")
     out.nontrivial = bool(ref["both_nonempty"] and ref["first_vgi"] != ref["first_std"])
     out.label(
         f"server={cfg_name}",
@@ -351,13 +370,20 @@ def _run_case(case: dict[str, Any]) -> Outcome:
     if prev:
         out.label("with_prev")
     out.note = {"status": r.status_code, "coding": coding, "header": hdr, "len": len(r.content), "want": want, "reason": reason}
-    if (r.headers.get("content-type") or "").split(";")[0].strip() != ARROW_CT:
+    if (r.headers.get("content-type") or "").split(";")[0].strip() != ARROW_CT and not (kind.startswith("rej_") and r.status_code == 415):
         out.fail(f"not_arrow_response/{kind}", f"status {r.status_code} content-type {r.headers.get('content-type')!r}")
         return out
     if problem:
         out.fail(f"both_headers_stamped/{kclass}", f"{problem} for AE={ae!r} XAE={xae!r}")
         return out
-    allowed = ref["allowed"]
+    allowed = set(ref["allowed"])
+    if kind.startswith("rej_"):
+        # a pre-dispatch refusal may always be sent uncoded (the statement's negotiation rule is about what the server
+        # *can produce*; the error serializer produces identity only) — but it may not announce a coding it did not apply
+        allowed.add((None, None))
+        if r.status_code < 400:
+            out.fail(f"reject_kind_served/{kind}", f"harness: {kind} answered {r.status_code}")
+            return out
     if (coding, hdr) not in allowed:
         allowed_codings = {c for c, _ in allowed}
         if coding not in allowed_codings:
@@ -455,7 +481,7 @@ _header = weighted(
     (17, st.builds(lambda items, sep, lead, trail: lead + sep.join(items) + trail, st.lists(_entry, min_size=1, max_size=4), st.sampled_from([",", ", ", ", ", " , ", ",,", ", ,"]), st.sampled_from(["", "", ","]), st.sampled_from(["", "", ",", ", "]))),
 )
 _cfg = st.sampled_from(_CFGS + [_CFGS[0], _CFGS[0], _CFGS[1], _CFGS[3]])
-_kind = st.sampled_from(KINDS + ["cont_small", "cont_big", "unary_small"])
+_kind = st.sampled_from(KINDS + ["cont_small", "cont_big", "unary_small"] + REJECT_KINDS)
 _prev = weighted(
     (3, st.none()),
     (2, st.builds(lambda k, a, x: {"kind": k, "ae": a, "xae": x}, st.sampled_from(["cont_small", "cont_big", "unary_small", "cont_error", "init_small"]), st.sampled_from([None, "zstd", "gzip", "identity"]), st.sampled_from([None, "zstd", "gzip", "gzip, zstd"]))),
